@@ -196,7 +196,9 @@ def run_sizes(case, acc, order):
                  [int(x) for x in b], order)
         # the same through a real reader on real files
         acc.state()
-        lay = {'backend': 'flat', 'dtype': 'int16', 'n_channels': 2, 'offset': case.get('offset', 0),
+        backends = ['flat'] + (['array', 'npy'] if len(sizes) == 1 else [])
+        backend = backends[(chunk + case.get('fill', 0)) % len(backends)]
+        lay = {'backend': backend, 'dtype': 'int16', 'n_channels': 2, 'offset': case.get('offset', 0),
                'parts': sizes, 'sample_rate': chunk / 600.0, 'fill': case.get('fill', 0)}
         with core.Scratch() as d:
             try:
